@@ -36,6 +36,10 @@ func SentinelMiddleware(opts ...Option) fiber.Handler {
 		}
 
 		defer entry.Exit()
-		return ctx.Next()
+		err := ctx.Next()
+		if err != nil {
+			sentinel.TraceError(entry, err)
+		}
+		return err
 	}
 }
